@@ -24,23 +24,24 @@ TRUSTED = ["networkx copy / remove_node / neighbors taken at face value",
 ASSUMPTIONS = ["edge-type names: default, and one custom triple passed explicitly (beyond the quantifier of C11)", "acyclic directed layer (domain of C01)", "I inside R inside V-{x,y} (quantifier of C11)"]
 LEVEL_TEXT = ("Coq theorems about the executable model minsep_model / is_minsep_model (transcription of the code with the repairs of "
               "fix proposals C11-02, C11-03 built in, on top of the C01 model msep_model and the C12 model of the moral graph), all "
-              "closed under the global context. UNBOUNDED (all graphs of the C01 domain, all sizes): minsep_sound (a returned Z has "
-              "I <= Z <= R and m-separates x and y in g itself, Prop msep by m-connecting paths) and is_minsep_sound (same for an "
-              "accepted Z), via C01's msep_correct and the anterior-restriction lemma anterior_restrict (path level, proved here); "
-              "plus the structural minsep_sound_partial / is_minsep_sound_partial without graph-class hypotheses. BOUNDED by kernel "
-              "computation against the path definition of m-separation (msep, via the proved oracle msep_dec, subsets by sublists): "
-              "None <-> no separator between I and R; Some Z -> Z separates and no proper subset containing I does; is_minsep_model = 1 "
-              "exactly for those Z -- for ALL graphs of the C01 domain on <= 3 nodes, all x<>y, all I <= R <= V-{x,y}, all Z "
-              "(minsep_bounded_3), and the minsep clauses for all DAGs on 4 nodes (minsep_bounded_dag_4). REFUTED for the code as it "
-              "stood: minsep_asis_unsound_refuted, minsep_asis_incomplete_refuted. NOT proved for all sizes: completeness, minimality, "
-              "exactness (full statements kept in C11/Spec.v); 4-node ADMG/ancestral graphs (thorough tier, exhaustive) and larger "
-              "random graphs are covered by correspondence only. Label-type clause (x, y single nodes whatever their type): by "
-              "correspondence under label families int, multi-character str, tuple, char, frozenset, bigint.")
+              "closed under the global context. ALL FOUR clauses are proved UNBOUNDED (all graphs of the C01 domain: acyclic directed "
+              "layer, no arrowhead at an endpoint of an undirected edge; all sizes; x<>y, I inside R inside V-{x,y}), against the Prop "
+              "msep of Graph/MSep.v (m-connecting paths): minsep_sound (a returned Z has I<=Z<=R and m-separates x and y in g), "
+              "minsep_none_iff (None <-> no separator between I and R), minsep_minimal (no proper subset of the returned Z containing I "
+              "separates), is_minsep_exact (is_minsep_model = 1 <-> Z is such a minimal separator); c11_full states the four "
+              "statements of C11/Spec.v verbatim. Ingredients proved here: anterior-restriction lemma, both halves of the moralisation "
+              "criterion (C12), closest-separator arguments for the two marked BFS passes; from C01: msep_model = msep, "
+              "open_walk_to_path. Additionally and independently BOUNDED by kernel computation against the oracle msep_dec with "
+              "subset enumeration: all clauses for all graphs of the C01 domain on <= 3 nodes (minsep_bounded_3), the search clauses "
+              "for all DAGs on 4 nodes (minsep_bounded_dag_4). REFUTED for the code as it stood: minsep_asis_unsound_refuted, "
+              "minsep_asis_incomplete_refuted. Label-type clause (x, y single nodes whatever their type): by correspondence under "
+              "label families int, multi-character str, tuple, char, frozenset, bigint. The implementation is tied to the model by "
+              "differential correspondence on every run (tie K).")
 LEVEL_NOTE = ("genuine defects found: fix proposals fixes/C11-01..03 (applied to /repo as 0e536de, 56e830f, 52db66c) and C11-04 "
               "(_anterior called without the caller's edge-type names: wrong answers on graphs with custom layer names); with them quick and "
               "thorough tiers are green. is_minimal_m_separator raising NetworkXError for a call with "
               "I not inside Z or Z not inside R is accepted as 'not True'.")
-TECHNIQUE = ("Coq proof (soundness for all sizes: C01 theorem + anterior-restriction lemma by path induction) + bounded kernel computation over a verified finite enumeration with "
+TECHNIQUE = ("Coq proof (model = spec for all four clauses, all sizes: C01 theorem, anterior restriction, moralisation criterion, closest-separator arguments) + bounded kernel computation over a verified finite enumeration with "
              "brute-force subset enumeration (n<=3; DAGs n=4) + refutation lemmas for the old behaviour + extracted-model "
              "correspondence judged by the brute-force oracle")
 LABS = ["str", "tuple", "char", "frozenset", "bigint"]
